@@ -22,3 +22,17 @@ package zerocopy
 
 //@ func (UDPNATServer).Info
 //@   dispatch
+
+// Packers and unpackers behind the relay's interfaces: every call is resolved over the module's
+// implementations (direct, Shadowsocks none, SOCKS5, Shadowsocks 2022), each through its own contract.
+//@ func (ClientUnpacker).UnpackInPlace
+//@   dispatch
+
+//@ func (ClientUnpacker).ClientUnpackerInfo
+//@   dispatch
+
+//@ func (ServerPacker).PackInPlace
+//@   dispatch
+
+//@ func (ServerPacker).ServerPackerInfo
+//@   dispatch
